@@ -559,7 +559,7 @@ theorem algLines_ordered (rf : List Str) (db : DB) (cat : Str) (names : List Str
   unfold algLines at hl
   obtain ⟨n, _, hn⟩ := List.mem_filterMap.mp hl
   unfold algTexts at hn
-  by_cases hb : (Text.strip (gssNormalize cat n)).isEmpty = true
+  by_cases hb : (Text.stripU (gssNormalize cat n)).isEmpty = true
   · simp [hb] at hn
   · simp only [hb, Bool.false_eq_true, if_false] at hn
     cases hlk : DBm.lookup db cat (gssNormalize cat n) with
